@@ -190,3 +190,38 @@ Proof.
   - reflexivity.
   - rewrite Z.mod_small; lia.
 Qed.
+
+(* ---- % : the remainder has the sign of the dividend and is smaller than the divisor in magnitude ---- *)
+Lemma mod_sign_bound x y :
+  in_int64 x = true -> in_int64 y = true -> y <> 0 ->
+  exists r, Mod (VInt x) (VInt y) = Ok (VInt r) /\ r = Z.rem x y /\ Z.abs r < Z.abs y /\ 0 <= r * x /\
+            x = y * Z.quot x y + r.
+Proof.
+  intros Hx Hy Hn. unfold in_int64, min_int, max_int in Hx, Hy.
+  apply andb_prop in Hx. destruct Hx as [X1 X2]. apply Z.leb_le in X1. apply Z.leb_le in X2.
+  apply andb_prop in Hy. destruct Hy as [Y1 Y2]. apply Z.leb_le in Y1. apply Z.leb_le in Y2.
+  cbn [Mod]. destruct (y =? 0) eqn:E; [apply Z.eqb_eq in E; contradiction|].
+  pose proof (Z.rem_bound_abs x y Hn) as Hb.
+  pose proof (Z.rem_sign_mul x y Hn) as Hs.
+  pose proof (Z.quot_rem' x y) as Hq.
+  assert (Hw : wrap64 (Z.rem x y) = Z.rem x y).
+  { unfold wrap64, two63, two64 in *. rewrite Z.mod_small; lia. }
+  exists (Z.rem x y). rewrite Hw. split; [reflexivity|]. split; [reflexivity|]. split; [exact Hb|]. split; [exact Hs|exact Hq].
+Qed.
+
+(* ---- < on integers is a strict total order, <= its reflexive closure ---- *)
+Lemma int_order x y z :
+  int_rel LT x x = false /\ int_rel LE x x = true /\
+  (int_rel LT x y = true -> int_rel LT y z = true -> int_rel LT x z = true) /\
+  (int_rel LE x y = true -> int_rel LE y z = true -> int_rel LE x z = true) /\
+  (int_rel LE x y = true -> int_rel LE y x = true -> x = y) /\
+  (int_rel LT x y = true \/ x = y \/ int_rel GT x y = true).
+Proof.
+  unfold int_rel. change (LT =? LT) with true. change (LE =? LT) with false. change (LE =? GT) with false.
+  change (LE =? LE) with true. change (GT =? LT) with false. change (GT =? GT) with true. cbv iota.
+  rewrite Z.ltb_irrefl, Z.leb_refl. split; [reflexivity|]. split; [reflexivity|].
+  split; [intros A B; apply Z.ltb_lt in A; apply Z.ltb_lt in B; apply Z.ltb_lt; lia|].
+  split; [intros A B; apply Z.leb_le in A; apply Z.leb_le in B; apply Z.leb_le; lia|].
+  split; [intros A B; apply Z.leb_le in A; apply Z.leb_le in B; lia|].
+  destruct (Z.lt_trichotomy x y) as [H|[H|H]]; [left; apply Z.ltb_lt; exact H|right; left; exact H|right; right; apply Z.ltb_lt; exact H].
+Qed.
